@@ -1804,4 +1804,8 @@ def legs(tier, for_replay=False):
     treps = stab.representatives(2, 0)
     out.append(Leg('live_histories_torch', fn_live_torch, [[1, i] for i in range(1, 48, 5)] + [[2, i] for i in (treps[1::4] if tier == 'quick' else treps)], chunk=1,
                    bound='torchclifford: two query rounds (must agree and leave the tensors untouched), one in-place operation, a third query round vs a fresh state with identical tensors'))
+    from .c04 import fn_special
+    out.append(Leg('result_independence', fn_special, [[pkg, N, kind] for pkg in ('py', 'torch') for kind in ('pauli', 'kept') for N in (1, 2, 3)], chunk=1,
+                   bound='both packages, N<=3: compose with sign-only / identity operands, then the RESULT overwritten in place (embed, array write): operands unchanged; inverses and '
+                         'compositions kept and re-read after later calls (leg shared with C04)'))
     return out
